@@ -2,7 +2,8 @@
    RFC 1939 reference `Nq.Pop3Ref` evaluated on the implementation's transcript.
    Input lines (see harness/c19_pop3d.c, harness/c19_popup.c):
      P <uid> <havedir> <now> <files> <events> <fd1> <fd2> <code> <maildir after> <chdirs>
-     U <pid> <now> <host> <child> <input> <fd1> <fd3|none> <code> -/
+     U <pid> <now> <host> <child> <input> <fd1> <fd3|none> <code>
+     H <ops> <removed> <array afterwards> <drained>      (prioq.c driven directly) -/
 import Drv.Util
 import Nq.Pop3
 import Nq.Spec.Pop3Ref
@@ -167,10 +168,99 @@ def handleU (st : Stats) (line : String) (fs : List String) : IO Stats := do
     | _, _, _, _, _, _ => IO.println s!"DISAGREE unparsable line {line.take 300}"; return { st with disagree := st.disagree + 1 }
   | _ => IO.println s!"DISAGREE unparsable line {line.take 300}"; return { st with disagree := st.disagree + 1 }
 
+/-! ### prioq.c driven directly -/
+
+inductive HOp
+  | ins (dt : Nat)
+  | del
+
+def parseOps (s : String) : Option (List HOp) :=
+  if s == "-" then some [] else
+  (s.splitOn ",").mapM (fun e =>
+    match e.toList with
+    | ['d'] => some HOp.del
+    | 'i' :: r => (String.ofList r).toNat?.map HOp.ins
+    | _ => none)
+
+def parseElt (e : String) : Option Elt :=
+  match e.splitOn ":" with
+  | [a, b] => do let a ← a.toNat?; let b ← b.toNat?; pure ⟨a, b⟩
+  | _ => none
+
+def parseElts (s : String) : Option (List Elt) :=
+  if s == "-" then some [] else (s.splitOn ",").mapM parseElt
+
+/-- `e` = the heap was empty -/
+def parseRemoved (s : String) : Option (List (Option Elt)) :=
+  if s == "-" then some [] else
+  (s.splitOn ",").mapM (fun e => if e == "e" then some none else (parseElt e).map some)
+
+/-- the model on a history: (heap, next id, what the delmins removed) -/
+def runOps (ops : List HOp) : List Elt × List (Option Elt) :=
+  let r := ops.foldl (fun (st : List Elt × Nat × List (Option Elt)) op =>
+    match op with
+    | .ins dt => (pqInsert st.1 ⟨dt, st.2.1⟩, st.2.1 + 1, st.2.2)
+    | .del => (pqDelmin st.1, st.2.1, st.1.head? :: st.2.2)) ([], 0, [])
+  (r.1, r.2.2.reverse)
+
+def eraseElt (l : List Elt) (e : Elt) : Option (List Elt) :=
+  if l.contains e then some (l.erase e) else none
+
+/-- The property of the heap, on what the implementation did: every delmin removes an entry that is
+present and whose dt is a minimum of those present (nothing if none is); what is left afterwards
+(`arr`) and the final drain are exactly the entries still present; the drain is in non-decreasing
+order of dt. -/
+def heapOracle (ops : List HOp) (removed : List (Option Elt)) (arr drained : List Elt) : Bool :=
+  let rec go : List HOp → Nat → List Elt → List (Option Elt) → Option (List Elt)
+    | [], _, present, rem => if rem.isEmpty then some present else none
+    | .ins dt :: rest, id, present, rem => go rest (id + 1) (⟨dt, id⟩ :: present) rem
+    | .del :: rest, id, present, rem =>
+      match rem with
+      | [] => none
+      | none :: rem' => if present.isEmpty then go rest id present rem' else none
+      | some e :: rem' =>
+        match eraseElt present e with
+        | none => none
+        | some p' => if present.all (fun x => e.dt ≤ x.dt) then go rest id p' rem' else none
+  match go ops 0 [] removed with
+  | none => false
+  | some present =>
+    let srt (l : List Elt) := (l.toArray.qsort (fun a b => a.dt < b.dt || (a.dt == b.dt && a.id < b.id))).toList
+    srt arr == srt present && srt drained == srt present && Pop3Ref.sortedBy (fun e : Elt => e.dt) drained
+
+def showElts (l : List Elt) : String := ",".intercalate (l.map (fun e => s!"{e.dt}:{e.id}"))
+
+def handleH (st : Stats) (line : String) (fs : List String) : IO Stats := do
+  match fs with
+  | [opsS, remS, arrS, drS] =>
+    match parseOps opsS, parseRemoved remS, parseElts arrS, parseElts drS with
+    | some ops, some removed, some arr, some drained =>
+      let h := hashBytes (line.toUTF8.toList.take 4096)
+      let fresh := !st.seen.contains h
+      let mut st := { st with cases := st.cases + 1, seen := st.seen.insert h }
+      st := st.bump (if ops.length ≥ 100 then "heap_big" else "heap_small")
+      let (mq, mrem) := runOps ops
+      let mdr := pqDrain mq.length mq
+      if !(mq == arr && mrem == removed && mdr == drained) then
+        if st.disagree < 40 then
+          IO.println s!"DISAGREE heap in={opsS} impl_removed={remS} impl_array={arrS} impl_drained={drS} model_array={showElts mq} model_drained={showElts mdr}"
+        st := { st with disagree := st.disagree + 1 }
+      if !heapOracle ops removed arr drained then
+        let seenN : Nat := ((st.counters.find? (fun kv => kv.1 == "oracle_heap")).map (fun kv => kv.2)).getD 0
+        if seenN < 25 then
+          IO.println s!"ORACLE kind=heap in={opsS} removed={remS} array={arrS} drained={drS}"
+        st := { st with oracle := st.oracle + 1 }
+        st := st.bump "oracle_heap"
+      if fresh && ops.length ≥ 3 then st := { st with nontrivial := st.nontrivial + 1 }
+      return st
+    | _, _, _, _ => IO.println s!"DISAGREE unparsable line {line.take 300}"; return { st with disagree := st.disagree + 1 }
+  | _ => IO.println s!"DISAGREE unparsable line {line.take 300}"; return { st with disagree := st.disagree + 1 }
+
 def handle (st : Stats) (line : String) : IO Stats := do
   match fields line with
   | "P" :: rest => handleP st line rest
   | "U" :: rest => handleU st line rest
+  | "H" :: rest => handleH st line rest
   | [] => return st
   | _ => IO.println s!"DISAGREE unparsable line {line.take 300}"; return { st with disagree := st.disagree + 1 }
 
